@@ -324,9 +324,28 @@ namespace
             l.push_back(it == counters->end() ? -1 : it->second->n);
         }
         out.line(l);
+        if (s.kind == 2 && s.n == 0)
+        {   // unbounded TSL: the indices the list itself reports modified (only asked in cycles in which the
+            // list is modified: the data-level ring is not time-gated and keeps the previous cycle's indices)
+            Line ml{32, who, now, (std::int64_t)path.size()};
+            for (auto x : path) { ml.push_back(x); }
+            const bool md = v.modified();
+            ml.push_back(md);
+            if (md)
+            {
+                std::vector<std::int64_t> idx;
+                auto                      list  = v.data_view().as_list();
+                auto                      range = list.modified_indices();
+                for (auto it = range.begin(); it != range.end(); ++it) { idx.push_back((std::int64_t)*it); }
+                std::sort(idx.begin(), idx.end());
+                for (auto k : idx) { ml.push_back(k); }
+            }
+            out.line(ml);
+        }
         if (s.kind == 1 || s.kind == 2)
         {
-            for (std::size_t i = 0; i < s.n; ++i)
+            const std::size_t count = (s.kind == 2 && s.n == 0) ? v.data_view().indexed_child_count() : s.n;
+            for (std::size_t i = 0; i < count; ++i)
             {
                 auto c = v.indexed_child_at(i);
                 path.push_back((std::int64_t)i);
